@@ -34,6 +34,8 @@ func (w *Adv) forgeAuthor(mode, name string, time int, next []cid.Cid) (*entry.E
 		b.ID = a.ID
 		b.Type = "other"
 		spec.Block = b
+	case "nonwriter-other-log": // the non-writer's honestly signed entry, written for ANOTHER database (foreign log id)
+		spec.LogID = w.SA2.Address().String()
 	case "copied-id-type-case": // as above, but the type is "orbitdb" spelled in another letter case
 		b := CopyIdentity(n)
 		b.ID = a.ID
@@ -65,7 +67,7 @@ func (w *Adv) forgeAuthor(mode, name string, time int, next []cid.Cid) (*entry.E
 	return e, err
 }
 
-var c03Modes = []string{"honest-nonwriter", "copied-id", "copied-block", "copied-block-and-key", "resigned-id", "copied-id-other-type", "copied-id-type-case"}
+var c03Modes = []string{"honest-nonwriter", "copied-id", "copied-block", "copied-block-and-key", "resigned-id", "copied-id-other-type", "copied-id-type-case", "nonwriter-other-log"}
 
 type c03Case struct {
 	Writers    []string
@@ -96,7 +98,7 @@ func c03Cases() []c03Case {
 			if l.name == "recorded-empty" && ctrl != "ipfs" {
 				continue // the empty list is recorded by hand in the ipfs controller's format
 			}
-			for _, route := range []string{"local", "sync", "topic", "direct", "ancestor"} {
+			for _, route := range []string{"local", "sync", "topic", "direct", "ancestor", "ancestor-refs"} {
 				if ctrl == "simple-direct" && (route == "topic" || route == "direct" || l.w == nil || len(l.w) == 0) {
 					continue // constructor-built replicas do not replicate over pubsub; the list is explicit
 				}
@@ -104,12 +106,12 @@ func c03Cases() []c03Case {
 				if route == "local" {
 					modes = []string{"honest-nonwriter"}
 				}
-				if route == "ancestor" && l.name != "[A,B]" {
+				if strings.HasPrefix(route, "ancestor") && l.name != "[A,B]" {
 					continue // needs an authorised colluder
 				}
 				for _, m := range modes {
 					positions := []string{"alone", "after-honest", "before-honest"}
-					if route == "local" || route == "ancestor" {
+					if route == "local" || strings.HasPrefix(route, "ancestor") {
 						positions = []string{"after-honest"}
 					}
 					for _, p := range positions {
@@ -206,12 +208,18 @@ func runC03Case(c c03Case) (string, []explore.Violation) {
 	var forged *entry.Entry
 	sender := w.N
 	switch c.Route {
-	case "ancestor":
+	case "ancestor", "ancestor-refs":
 		forged, err = w.forgeAuthor(c.Mode, "forged", 1, nil)
 		if err != nil {
 			return "harness: " + err.Error(), nil
 		}
-		b1, err := Forge(w.B.Peer.API(), ForgeSpec{LogID: w.Addr, Payload: addPayload("b1"), Time: 2, Signer: w.B.DB.Identity(), Next: []cid.Cid{forged.Hash}})
+		bspec := ForgeSpec{LogID: w.Addr, Payload: addPayload("b1"), Time: 2, Signer: w.B.DB.Identity(), Next: []cid.Cid{forged.Hash}}
+		if c.Route == "ancestor-refs" {
+			// the colluder's head names the entry in its skip list only (entries reached through next links are
+			// never heads of the fetched log; one reached through refs alone is)
+			bspec.Next, bspec.Refs = nil, []cid.Cid{forged.Hash}
+		}
+		b1, err := Forge(w.B.Peer.API(), bspec)
 		if err != nil {
 			return "harness: " + err.Error(), nil
 		}
@@ -232,7 +240,7 @@ func runC03Case(c c03Case) (string, []explore.Violation) {
 		}
 	}
 	route := c.Route
-	if route == "ancestor" {
+	if strings.HasPrefix(route, "ancestor") {
 		route = "sync"
 	}
 	if err := w.Deliver(route, sender, announce); err != nil {
